@@ -34,7 +34,7 @@ MANIFEST = {
 }
 PROPERTY_FILES = ['Properties/C08.v']
 REFUTED_FILES = ['Refuted/C08.v']
-MODEL_FILES = ['SF/PyDyn.v', 'Gen/Gen_util.v', 'Gen/Gen_type_blocks.v', 'Gen/Gen_c08.v', 'SF/UpdateFrame.v']
+MODEL_FILES = ['SF/PyDyn.v', 'Gen/Gen_util.v', 'Gen/Gen_type_blocks.v', 'SF/UpdateFrameSpec.v', 'Gen/Gen_c08.v', 'SF/UpdateFrame.v']
 TRANSLATED = ['slice_to_ascending_slice', 'cols_to_slice', 'resolve_dtype']
 RULE = ('exhaustive small spaces first: every block layout (zoo.layouts_for) of every prefix (0..4 columns) of the dtype patterns IIII, IIFB, UIIO, FFFI '
         '(quick tier: all layouts up to 3 columns and every other layout of 4 columns of IIII, the 4-column layouts of the mixed patterns) x EVERY subset of the '
@@ -1536,6 +1536,9 @@ def walk_kernel_cases(ctx):
                        tags={'kernel': 'key_to_block_slices'}, nontrivial=bool(out))
 
 
+# the specification side alone: nothing here depends on Gen/Gen_c08.v or on the block-walk models, so S can still be
+# evaluated (failing-input search) when generate() fails closed or a model no longer builds
+IMPORTS_SPEC_ONLY = 'Require Import SF.Prelude SF.PySlice SF.Dtype SF.Value SF.Blocks SF.UpdateSpec SF.UpdateFrameSpec.'
 IMPORTS = ('Require Import SF.Prelude SF.PySlice SF.Dtype SF.Value SF.PyDyn SF.Blocks SF.UpdateSpec SF.BlocksUpdate SF.UpdateFrame '
            'Gen.Gen_util Gen.Gen_type_blocks.\n'
            'Definition c08_resolve (a b : dtype) : dtype := match resolve_dtype (PDtype a) (PDtype b) with PDtype r => r | _ => DObj end.')
